@@ -95,16 +95,40 @@ const (
 	sfxTail  = "+&"
 )
 
-func sfxName(k int) string { return "_" + string(rune('A'+k-1)) + sfxTail }
+// sfxName: suffix token 0 is the empty suffix (a trip id that consists of the 6 character prefix only)
+func sfxName(k int) string {
+	if k == 0 {
+		return ""
+	}
+	return "_" + string(rune('A'+k-1)) + sfxTail
+}
 
 func sfxIndex(s string) int {
+	if s == "" {
+		return 0
+	}
 	if len(s) == 2+len(sfxTail) && s[0] == '_' && s[2:] == sfxTail && s[1] >= 'A' && s[1] <= 'Z' {
 		return int(s[1]-'A') + 1
 	}
 	return -1
 }
 
-func tm(off int) time.Time { return time.Unix(Base+int64(off), 0).UTC() }
+// ZeroT is the abstract instant that stands for time.Time{} (a feed without header timestamp has that CreatedAt).
+const ZeroT = -1000000
+
+func tm(off int) time.Time {
+	if off == ZeroT {
+		return time.Time{}
+	}
+	return time.Unix(Base+int64(off), 0).UTC()
+}
+
+func off(t time.Time) int {
+	if t.IsZero() {
+		return ZeroT
+	}
+	return int(t.Unix() - Base)
+}
 
 // Tm converts an abstract instant to a concrete one.
 func Tm(off int) time.Time { return tm(off) }
@@ -173,7 +197,7 @@ func optTime(t *time.Time) abs.Opt[int] {
 	if t == nil {
 		return abs.None[int]()
 	}
-	return abs.Some(int(t.Unix() - Base))
+	return abs.Some(off(*t))
 }
 
 func projUID(s string) Uid {
@@ -195,9 +219,9 @@ func ProjTrip(t *journal.Trip) Entry {
 		Sfx:      -1,
 		Route:    numAfter(RoutePfx, t.RouteID),
 		Dir:      int(t.DirectionID),
-		Start:    int(t.StartTime.Unix() - Base),
+		Start:    off(t.StartTime),
 		Assigned: t.IsAssigned,
-		LastObs:  int(t.LastObserved.Unix() - Base),
+		LastObs:  off(t.LastObserved),
 		Marked:   optTime(t.MarkedPast),
 		NUpd:     t.NumUpdates,
 		NChg:     t.NumScheduleChanges,
@@ -221,7 +245,7 @@ func ProjTrip(t *journal.Trip) Entry {
 			Stop:    numAfter(StopPfx, s.StopID),
 			Arr:     optTime(s.ArrivalTime),
 			Dep:     optTime(s.DepartureTime),
-			LastObs: int(s.LastObserved.Unix() - Base),
+			LastObs: off(s.LastObserved),
 			Marked:  optTime(s.MarkedPast),
 			Track:   abs.None[int](),
 		}
@@ -369,7 +393,7 @@ func Gen(r *rand.Rand, nFeeds, nTrips, nStops int) Case {
 	starts := []int{3600, 3600, 7200, 10800}
 	var ts []*tripState
 	for i := 0; i < nTrips; i++ {
-		t := &tripState{sfx: i%5 + 1, start: starts[r.Intn(len(starts))] + 60*(i/5)}
+		t := &tripState{sfx: i % 6, start: starts[r.Intn(len(starts))] + 60*(i/6)}
 		n := 3 + r.Intn(nStops-2)
 		for k := 0; k < n; k++ {
 			t.route = append(t.route, 1+r.Intn(nStops))
@@ -384,8 +408,8 @@ func Gen(r *rand.Rand, nFeeds, nTrips, nStops int) Case {
 			if r.Intn(6) == 0 { // missing from this feed
 				continue
 			}
-			if seen[Uid{t.start, t.sfx}] {
-				continue
+			if seen[Uid{t.start, t.sfx}] && r.Intn(3) != 0 {
+				continue // mostly one update per UID and feed; sometimes the same UID twice (both are applied, the last one wins)
 			}
 			seen[Uid{t.start, t.sfx}] = true
 			switch r.Intn(8) {
